@@ -9,6 +9,8 @@ import (
 	"sync/atomic"
 	"time"
 
+	"verifharness/hx"
+
 	"github.com/iotaledger/hive.go/runtime/workerpool"
 )
 
@@ -30,7 +32,10 @@ func runLockRace(line string) *result {
 	}
 	for cfg := 0; cfg < 4; cfg++ {
 		w, cancel := 1+cfg, cfg%2 == 1
-		pool := workerpool.New("lockrace", workerpool.WithWorkerCount(w), workerpool.WithCancelPendingTasksOnShutdown(cancel))
+		// configurations 2 and 3: rejected submits panic (WithPanicOnSubmitAfterShutdown) and the callers recover
+		panicOpt := cfg >= 2
+		pool := workerpool.New("lockrace", workerpool.WithWorkerCount(w), workerpool.WithCancelPendingTasksOnShutdown(cancel),
+			workerpool.WithPanicOnSubmitAfterShutdown(panicOpt))
 		var ups, dns, ran, cycles, submits atomic.Int64
 		pool.PendingTasksCounter.Subscribe(func(oldValue, newValue int) {
 			if newValue > oldValue {
@@ -57,6 +62,8 @@ func runLockRace(line string) *result {
 				for i := 0; !stop.Load(); i++ {
 					if s == 2 && i%2 == 0 {
 						pool.IsRunning()
+					} else if panicOpt {
+						hx.Safely(func() { pool.Submit(func() { ran.Add(1) }) })
 					} else {
 						pool.Submit(func() { ran.Add(1) })
 					}
